@@ -97,7 +97,10 @@ def impl_state(cs, ret):
 
 def impl_run(case):
     """Generates the op sequence while running the implementation (ops are chosen from the live index sets)."""
-    from sparseSpACE.combiScheme import CombiScheme
+    import importlib
+    import sparseSpACE.combiScheme as _m
+    importlib.reload(_m)        # a case is self-contained: no module/class level state from earlier cases of this worker
+    CombiScheme = _m.CombiScheme
     rng = random.Random(case['seed'])
     cs = CombiScheme(case['dim'])
     cs.init_adaptive_combi_scheme(case['lmax'], case['lmin'])
@@ -173,6 +176,505 @@ def oracle_state(dim, lmin, st):
             if s != want:
                 return 'coefficients of grids dominating %s sum to %s, expected %s' % (l, s, want)
     return None
+
+
+# ====================================================================================================================
+# HISTORIES OF PUBLIC REQUESTS ON ONE OBJECT (several objects per process): re-initialisation with equal / other
+# parameters / other parameters giving an index set of the SAME SIZE, init_full_grid, update requests, scheme requests
+# with arbitrary lmin/lmax/do_print, queries; returned objects are mutated by the caller, arguments are passed as
+# list / tuple / ndarray.  Model: Entry sub 2 (Model/CombiSchemeObj.v), one independent machine per object.
+# ====================================================================================================================
+OPCODE = {'init': 0, 'full': 1, 'update': 2, 'get': 3, 'index_set': 4, 'active': 5, 'refinable': 6, 'forward': 7,
+          'inset': 8, 'old': 9, 'ext': 10}
+
+
+def simplex_size(dim, span):
+    import math
+    return math.comb(span + dim, dim) if span >= 0 else 0
+
+
+def gen_hist_case(rng, tier):
+    r = rng.random()
+    if r < 0.70:
+        dims = [rng.choice([1, 2, 2, 2, 3, 3, 4])]
+    elif r < 0.85:
+        d = rng.choice([2, 2, 3])
+        dims = [d, d]                                    # two objects of one class in one process, same dimension
+    else:
+        dims = [rng.choice([1, 2, 3]), rng.choice([2, 3, 4])]
+    if tier != 'quick' and rng.random() < 0.1:
+        dims = [rng.choice([5, 6])]
+    mode = rng.choice(['random', 'random', 'twin', 'collide', 'collide'])
+    return dict(dims=dims, nops=rng.randrange(4, 15), mode=mode, probe=rng.random() < 0.35, seed=rng.randrange(1 << 30),
+                kind='history')
+
+
+def _canon_lv(l):
+    return [int(x) for x in l]
+
+
+def _mk_arg(l, kind):
+    import numpy as np
+    if kind == 'tuple':
+        return tuple(l)
+    if kind == 'nd':
+        return np.array(l, dtype=int)
+    return list(l)
+
+
+def _exec(cs, op, mutate):
+    """One request. Returns (status, canonical result, problem-with-argument or None)."""
+    import contextlib
+    import io
+    import numpy as np
+    k = op['op']
+    arg = None
+    try:
+        if k in ('init', 'full'):
+            (cs.init_adaptive_combi_scheme if k == 'init' else cs.init_full_grid)(op['lmax'], op['lmin'])
+            res = ['unit']
+        elif k == 'get':
+            if op.get('pr'):
+                with contextlib.redirect_stdout(io.StringIO()):
+                    g = cs.getCombiScheme(op['lmin'], op['lmax'], True)
+            elif op.get('defaults'):
+                g = cs.getCombiScheme(do_print=False)
+            else:
+                g = cs.getCombiScheme(lmin=op['lmin'], lmax=op['lmax'], do_print=False)
+            res = ['coeffs', sorted([_canon_lv(x.levelvector), sx.rat(x.coefficient)] for x in g)]
+            if mutate and op.get('mut') == 'list':
+                del g[:]
+            elif mutate and op.get('mut') == 'coef':
+                for x in g:
+                    x.coefficient = 77
+            elif mutate and op.get('mut') == 'lv':
+                for x in g:
+                    if isinstance(x.levelvector, np.ndarray):
+                        x.levelvector += 3
+                    else:
+                        x.levelvector = tuple(9 for _ in x.levelvector)
+        elif k == 'index_set':
+            st = cs.get_index_set()
+            res = ['set', sorted(_canon_lv(x) for x in st)]
+            if mutate and op.get('mut'):
+                st.add(tuple([99] * cs.dim))
+                if len(st) > 1:
+                    st.discard(min(st))
+        elif k == 'active':
+            res = ['set', sorted(_canon_lv(x) for x in cs.get_active_indices())]     # the object's own set: read only
+        else:
+            arg = _mk_arg(op['l'], op.get('kind', 'list'))
+            keep = list(arg)
+            f = {'update': cs.update_adaptive_combi, 'refinable': cs.is_refinable, 'forward': cs.has_forward_neighbour,
+                 'inset': cs.in_index_set, 'old': cs.is_old_index, 'ext': cs.extendable_level}[k]
+            v = f(arg)
+            if k == 'update':
+                res = ['dims', -1 if v is None else [int(d) for d in v]]
+            elif k == 'ext':
+                res = ['ext', int(bool(v[0])), int(v[1])]
+            else:
+                res = ['bool', int(bool(v))]
+            if type(arg) is not type(_mk_arg(op['l'], op.get('kind', 'list'))) or [int(x) for x in arg] != [int(x) for x in keep]:
+                return 'ok', res, 'argument %s changed from %s to %s' % (k, keep, list(arg))
+        return 'ok', res, None
+    except Exception as e:      # exceptions are observables
+        return 'exc', ['exc', type(e).__name__], None
+
+
+def _snapshot(cs):
+    return [sorted(_canon_lv(x) for x in cs.active_index_set), sorted(_canon_lv(x) for x in cs.old_index_set),
+            int(getattr(cs, 'lmax_adaptive', -1))]
+
+
+def _rand_lv(rng, cs, info, dim):
+    r = rng.random()
+    act = sorted(cs.active_index_set); old = sorted(cs.old_index_set)
+    lo = info['lmin'] if info['lmin'] is not None else 1
+    if r < 0.45 and act:
+        return list(rng.choice(act))
+    if r < 0.6 and old:
+        return list(rng.choice(old))
+    if r < 0.75 and act:
+        l = list(rng.choice(act)); l[rng.randrange(len(l))] += rng.choice([1, -1]); return l
+    if r < 0.9:
+        return [rng.randrange(max(0, lo - 1), lo + 5) for _ in range(dim)]
+    return [rng.randrange(0, 4) for _ in range(max(0, dim + rng.choice([-1, 1])))]          # wrong length
+
+
+def _plan(rng, case, o, cs, info, dim):
+    """The next request(s) for object o, chosen from the live state."""
+    kinds = ['list', 'list', 'tuple', 'nd']
+    def upd(l):
+        return dict(o=o, op='update', l=_canon_lv(l), kind=rng.choice(kinds))
+    def get():
+        r = rng.random()
+        op = dict(o=o, op='get', lmin=rng.choice([0, 1, 1, 2, 3]), lmax=0, pr=int(rng.random() < 0.2),
+                  mut=rng.choice([None, None, 'list', 'coef', 'lv']))
+        op['lmax'] = op['lmin'] + rng.choice([-1, 0, 1, 2, 3, 4])
+        if r < 0.3 and not op['pr']:
+            op['defaults'] = 1; op['lmin'], op['lmax'] = 1, 2
+        elif r < 0.6 and info['shared'].get('get'):
+            op['lmin'], op['lmax'] = info['shared']['get']       # the parameters of the last request on ANY object of the case
+        info['shared']['get'] = (op['lmin'], op['lmax'])
+        return op
+    size = len(cs.active_index_set | cs.old_index_set)
+    if info['state'] is None:            # not initialised yet
+        r = rng.random()
+        if r < 0.30:
+            return [get()]
+        if r < 0.38:
+            return [dict(o=o, op=rng.choice(['refinable', 'forward', 'inset', 'old', 'ext', 'update']),
+                         l=[rng.randrange(0, 4) for _ in range(dim)], kind=rng.choice(kinds))]
+        if r < 0.40:
+            return [dict(o=o, op=rng.choice(['index_set', 'active']), mut=0)]
+    r = rng.random()
+    if info['state'] is None or r < 0.16:
+        # (re-)initialisation
+        lmin = rng.choice([0, 1, 1, 2, 3]); span = rng.choice([0, 1, 2, 2, 3, 4 if dim < 4 else 2])
+        rel = 'first' if info['state'] is None else 'other'
+        if info['state'] is not None:
+            q = rng.random()
+            mode = case['mode']
+            if mode == 'twin' or q < 0.25:
+                lmin, span, rel = info['lmin'], info['lmax'] - info['lmin'], 'same-parameters'
+            elif mode == 'collide' or q < 0.5:
+                # other parameters whose initial index set is as large as possible without exceeding the size the last
+                # scheme request saw; refinements then bring it to exactly that size
+                want = info['get_size'] or size
+                cands = [(lm, sp) for lm in (0, 1, 2, 3) for sp in (0, 1, 2, 3, 4)
+                         if simplex_size(dim, sp) <= want and (lm, lm + sp) != (info['lmin'], info['lmax'])]
+                if cands:
+                    best = max(simplex_size(dim, sp) for lm, sp in cands)
+                    lmin, span = rng.choice([c for c in cands if simplex_size(dim, c[1]) == best])
+                    rel = 'same-size-other-content' if best == want else 'grow-to-same-size'
+        if rng.random() < 0.06:
+            lmin, span, rel = rng.choice([(2, -1), (-1, 2), (3, -3)]) + ('bad-parameters',)
+        full = info['state'] is not None and rng.random() < 0.12 or (info['state'] is None and rng.random() < 0.06)
+        info['pending_rel'] = rel
+        return [dict(o=o, op='full' if full else 'init', lmax=lmin + span, lmin=lmin, rel=rel)]
+    if r < 0.22 and info['state'] == 'adaptive' and info.get('get_size') and size < info['get_size'] and info.get('chase', 0) < 8:
+        pass
+    if info['state'] == 'adaptive' and info.get('target') and size < info['target'] and info.get('chase', 0) < 10:
+        # after a re-initialisation: refine towards the size the last scheme request saw (other content, same size)
+        info['chase'] = info.get('chase', 0) + 1
+        act = sorted(cs.active_index_set)
+        avoid = info.get('first_pass', [])
+        pool = [a for a in act if list(a) not in avoid] or act
+        return [upd(rng.choice(pool))]
+    if info['state'] == 'adaptive' and info.get('target') and size == info['target']:
+        info['target'] = None
+        return [get()]
+    if r < 0.55:
+        return [upd(_rand_lv(rng, cs, info, dim))]
+    if r < 0.72:
+        return [get()]
+    if r < 0.80:
+        return [dict(o=o, op='index_set', mut=int(rng.random() < 0.5))]
+    if r < 0.83:
+        return [dict(o=o, op='active')]
+    return [dict(o=o, op=rng.choice(['refinable', 'forward', 'inset', 'old', 'ext']), l=_canon_lv(_rand_lv(rng, cs, info, dim)),
+                 kind=rng.choice(kinds))]
+
+
+def impl_hist(case):
+    """Runs a history on the objects `main` (returned objects are mutated as a caller might) and on `ctrl` (same requests,
+    returned objects untouched).  The history is generated from the live state unless case['ops'] is given."""
+    import importlib
+    import sparseSpACE.combiScheme as _m
+    importlib.reload(_m)        # module/class level state must not leak from the case the worker process ran before
+    CombiScheme = _m.CombiScheme
+    rng = random.Random(case['seed'])
+    dims = case['dims']
+    main = [CombiScheme(d) for d in dims]
+    ctrl = [CombiScheme(d) for d in dims]
+    shared = {}
+    info = [dict(state=None, lmin=None, lmax=None, get_size=None, target=None, first_pass=[], shared=shared) for _ in dims]
+    fixed = case.get('ops') is not None
+    queue = list(case['ops']) if fixed else []
+    ops, obs, cobs, argp = [], [], [], []
+    budget = len(queue) if fixed else case['nops']
+    while len(ops) < (budget if fixed else 40) and (queue or (not fixed and len(ops) < budget + 12 and
+                                                             (len(ops) < budget or any(i['target'] for i in info)))):
+        if not queue:
+            o = rng.randrange(len(dims))
+            queue = _plan(rng, case, o, main[o], info[o], dims[o])
+            if case.get('probe') and queue[0]['op'] not in ('get',):
+                queue = queue + [dict(o=o, op='get', lmin=1, lmax=2, defaults=1, pr=0, mut=None)]
+        op = queue.pop(0)
+        o = op['o']; cs = main[o]; inf = info[o]
+        st, res, ap = _exec(cs, op, True)
+        cst, cres, _ = _exec(ctrl[o], op, False)
+        ops.append(op)
+        obs.append([st, res] + _snapshot(cs))
+        cobs.append([cst, cres] + _snapshot(ctrl[o]))
+        argp.append(ap)
+        # bookkeeping for the generator
+        if op['op'] in ('init', 'full') and st == 'ok':
+            inf['state'] = 'adaptive' if op['op'] == 'init' else 'full'
+            if inf.get('get_size') and op['op'] == 'init' and op.get('rel') in ('same-parameters', 'grow-to-same-size',
+                                                                              'same-size-other-content'):
+                inf['target'] = inf['get_size']; inf['chase'] = 0
+            else:
+                inf['target'] = None
+            if op.get('rel') != 'same-parameters':
+                inf['first_pass'] = []
+            inf['lmin'], inf['lmax'] = op['lmin'], op['lmax']
+        elif op['op'] == 'update' and st == 'ok' and res[1] != -1 and not inf.get('target'):
+            inf['first_pass'].append(op['l'])
+        elif op['op'] == 'get' and st == 'ok' and inf['state'] is not None:
+            inf['get_size'] = len(cs.active_index_set | cs.old_index_set)
+    return dict(ops=ops, obs=obs, ctrl=cobs, argp=argp)
+
+
+def enc_op(op):
+    k = op['op']
+    if k in ('init', 'full'):
+        return [OPCODE[k], op['lmax'], op['lmin']]
+    if k == 'get':
+        return [OPCODE[k], op['lmin'], op['lmax']]
+    if k in ('index_set', 'active'):
+        return [OPCODE[k]]
+    return [OPCODE[k], op['l']]
+
+
+def dec_model_step(m):
+    r, act, old, la = m
+    t = r[0]
+    if t == 0:
+        res = ['exc']
+    elif t == 1:
+        res = ['unit']
+    elif t == 2:
+        res = ['dims', r[1]]
+    elif t == 3:
+        res = ['coeffs', sorted([k, sx.rat(c)] for k, c in r[1])]
+    elif t == 4:
+        res = ['set', sorted(r[1])]
+    elif t == 5:
+        res = ['bool', r[1]]
+    else:
+        res = ['ext', r[1], r[2]]
+    return [res, sorted(act), sorted(old), la]
+
+
+def oracle_sets(dim, lmin, act, old):
+    A = set(map(tuple, act)); O = set(map(tuple, old)); I = A | O
+    if A & O:
+        return 'active and old index sets intersect: %s' % sorted(A & O)[:3]
+    for k in I:
+        if len(k) != dim or min(k) < lmin:
+            return 'index %s has wrong length or lies below lmin' % (k,)
+        for d in range(dim):
+            b = list(k); b[d] -= 1; b = tuple(b)
+            if b[d] >= lmin and b not in I:
+                return 'index set not downward closed: %s in set, backward neighbour %s missing' % (k, b)
+            f = list(k); f[d] += 1; f = tuple(f)
+            if k in A and f in I:
+                return 'active index %s has forward neighbour %s in the set' % (k, f)
+    return None
+
+
+def oracle_coeffs(dim, lmin, I, coeffs, support=True):
+    I = set(map(tuple, I))
+    for k, c in coeffs:
+        if support and tuple(k) not in I:
+            return 'returned grid %s lies outside the index set' % (k,)
+    pts = list(I) + [tuple(k) for k, c in coeffs]
+    if pts:
+        hi = [max(k[d] for k in pts) + 1 for d in range(dim)]
+        for l in itertools.product(*[range(lmin, hi[d] + 1) for d in range(dim)]):
+            s = sum(c for k, c in coeffs if all(k[d] >= l[d] for d in range(dim)))
+            want = 1 if l in I else 0
+            if s != want:
+                return 'coefficients of grids dominating %s sum to %s, expected %s' % (l, s, want)
+    return None
+
+
+def oracle_history(dims, ops, obs, ctrl, argp, deep=True):
+    """The property's own predicates along a history, evaluated on the implementation alone.
+    Returns (step, kind, message) of the first violation or None."""
+    state = [None] * len(dims); par = [None] * len(dims)
+    for i, (op, ob) in enumerate(zip(ops, obs)):
+        o = op['o']; dim = dims[o]
+        st, res, act, old, la = ob
+        if argp[i]:
+            return i, 'argument-mutated', argp[i]
+        if ctrl[i] != ob:
+            return i, 'result-aliases-internal-state', ('after the caller changed an object returned by an earlier request '
+                    'the object answers/holds %s; the same requests without touching returned objects give %s' % (str(ob)[:300], str(ctrl[i])[:300]))
+        if op['op'] in ('init', 'full') and st == 'ok':
+            state[o] = 'adaptive' if op['op'] == 'init' else 'full'; par[o] = (op['lmax'], op['lmin'])
+        A = set(map(tuple, act)); O = set(map(tuple, old)); I = A | O
+        if state[o] == 'adaptive':
+            why = oracle_sets(dim, par[o][1], act, old)
+            if why:
+                return i, 'property-predicate', why
+        if st != 'ok':
+            continue
+        k = op['op']
+        if k == 'get' and state[o] in ('adaptive', 'full') and deep:
+            # after init_full_grid (plotting helper, 'violates the basic properties of the index sets': active set empty, and
+            # for d >= 3 the set is not even downward closed) only the dominating-sum identity is claimed: it holds for the
+            # coefficients of ANY finite index set (C01_inclusion_exclusion_any_index_set)
+            why = oracle_coeffs(dim, par[o][1], I, res[1], support=state[o] == 'adaptive')
+            if why:
+                return i, 'property-predicate', why
+        if k == 'get' and state[o] is None and 0 <= op['lmin'] <= op['lmax'] and deep:
+            # closed form = inclusion-exclusion scheme of the freshly initialised index set {k >= lmin, |k-lmin|_1 <= lmax-lmin}
+            span = op['lmax'] - op['lmin']
+            S = [tuple(op['lmin'] + x for x in v) for v in itertools.product(range(span + 1), repeat=dim) if sum(v) <= span]
+            why = oracle_coeffs(dim, op['lmin'], S, res[1])
+            if why:
+                return i, 'property-predicate', 'closed form for lmin=%d lmax=%d: %s' % (op['lmin'], op['lmax'], why)
+        if k == 'index_set' and set(map(tuple, res[1])) != I:
+            return i, 'query-inconsistent-with-sets', 'get_index_set returns %s, the sets hold %s' % (res[1], sorted(I))
+        if k in ('refinable', 'inset', 'old'):
+            t = tuple(op['l']); want = {'refinable': t in A, 'inset': t in I, 'old': t in O}[k]
+            if bool(res[1]) != want:
+                return i, 'query-inconsistent-with-sets', '%s(%s) answers %s, the sets say %s' % (k, op['l'], bool(res[1]), want)
+        if k == 'forward' and len(op['l']) == dim:
+            want = any(tuple(op['l'][:d] + [op['l'][d] + 1] + op['l'][d + 1:]) in I for d in range(dim))
+            if bool(res[1]) != want:
+                return i, 'query-inconsistent-with-sets', 'has_forward_neighbour(%s) answers %s, the sets say %s' % (op['l'], bool(res[1]), want)
+    return None
+
+
+def shrink_history(case, ops, upto, pred):
+    """Greedy removal of requests before the failing one while the implementation still fails the same predicate."""
+    ops = ops[:upto + 1]
+    i = 0
+    tries = 0
+    while i < len(ops) - 1 and tries < 40:
+        cand = ops[:i] + ops[i + 1:]
+        tries += 1
+        st, r = run_impl(impl_hist, [dict(case, ops=cand)], limit=60)[0]
+        if st == 'ok' and pred(r):
+            ops = cand
+        else:
+            i += 1
+    return ops
+
+
+def run_object_histories(chk):
+    n = chk.n(420, 12000)
+    corpus = [
+        # equal size, other content after a re-initialisation (seeded/C01r3)
+        dict(dims=[2], nops=4, mode='fixed', probe=False, seed=0, kind='history', ops=[
+            dict(o=0, op='init', lmax=3, lmin=1), dict(o=0, op='get', lmin=1, lmax=2, pr=0, mut=None, defaults=1),
+            dict(o=0, op='init', lmax=2, lmin=0), dict(o=0, op='get', lmin=1, lmax=2, pr=0, mut=None, defaults=1)]),
+        dict(dims=[2], nops=6, mode='fixed', probe=False, seed=0, kind='history', ops=[
+            dict(o=0, op='init', lmax=2, lmin=1), dict(o=0, op='update', l=[1, 2], kind='list'),
+            dict(o=0, op='get', lmin=1, lmax=2, pr=0, mut='coef'), dict(o=0, op='init', lmax=2, lmin=1),
+            dict(o=0, op='update', l=[2, 1], kind='nd'), dict(o=0, op='get', lmin=1, lmax=2, pr=1, mut=None)]),
+        # closed form requests with changing parameters on one never initialised object, two objects in one process
+        dict(dims=[3, 2], nops=6, mode='fixed', probe=False, seed=0, kind='history', ops=[
+            dict(o=0, op='get', lmin=1, lmax=3, pr=0, mut='lv'), dict(o=1, op='get', lmin=1, lmax=3, pr=0, mut='list'),
+            dict(o=0, op='get', lmin=2, lmax=4, pr=0, mut=None), dict(o=0, op='get', lmin=1, lmax=3, pr=1, mut=None),
+            dict(o=1, op='init', lmax=3, lmin=1), dict(o=1, op='get', lmin=0, lmax=5, pr=0, mut=None),
+            dict(o=0, op='full', lmax=2, lmin=1), dict(o=0, op='get', lmin=1, lmax=2, pr=0, mut=None),
+            dict(o=0, op='index_set', mut=1), dict(o=0, op='forward', l=[1, 1, 1], kind='tuple'),
+            dict(o=0, op='init', lmax=2, lmin=1), dict(o=0, op='ext', l=[1, 2, 1], kind='nd'),
+            dict(o=0, op='update', l=[1, 1, 2], kind='nd'), dict(o=0, op='get', lmin=1, lmax=2, pr=0, mut=None)]),
+        # larger sizes
+        dict(dims=[2], nops=3, mode='fixed', probe=False, seed=0, kind='history', ops=[
+            dict(o=0, op='init', lmax=9, lmin=1), dict(o=0, op='get', lmin=1, lmax=2, pr=0, mut=None, defaults=1),
+            dict(o=0, op='update', l=[5, 5], kind='list'), dict(o=0, op='get', lmin=1, lmax=2, pr=0, mut=None, defaults=1)]),
+        dict(dims=[6], nops=3, mode='fixed', probe=False, seed=0, kind='history', ops=[
+            dict(o=0, op='init', lmax=3, lmin=1), dict(o=0, op='update', l=[1, 1, 1, 1, 1, 3], kind='tuple'),
+            dict(o=0, op='get', lmin=1, lmax=2, pr=0, mut=None, defaults=1)]),
+    ]
+    cases = corpus + [gen_hist_case(chk.rng, chk.tier) for _ in range(n)]
+    impl = run_impl(impl_hist, cases, limit=120)
+    mcases, midx = [], []
+    for i, (c, (st, r)) in enumerate(zip(cases, impl)):
+        if st != 'ok':
+            continue
+        for o, d in enumerate(c['dims']):
+            mcases.append((2, [d, [enc_op(op) for op in r['ops'] if op['o'] == o]])); midx.append((i, o))
+    mres = run_model(1, mcases)
+    mstep = {}
+    for (i, o), mr in zip(midx, mres):
+        mstep[(i, o)] = mr
+    keys, samples = [], []
+    shrunk = {}
+    for i, (c, (st, r)) in enumerate(zip(cases, impl)):
+        chk.count('hist:objects=%d' % len(c['dims'])); chk.count('hist:mode=' + c['mode'])
+        for d in c['dims']:
+            chk.count('hist:dim=%d' % d)
+        if st != 'ok':
+            chk.violation('corr:C01/object-history', 'harness-exception', {'exc': r[0] if r else st}, c, dict(impl=str(r)[:600]),
+                          failing_input=False)
+            continue
+        chk.traces += 1
+        ops, obs = r['ops'], r['obs']
+        nontrivial = False
+        last_get = {}
+        for op, ob in zip(ops, obs):
+            chk.count('hist:op=' + op['op'])
+            if 'kind' in op:
+                chk.count('hist:arg=' + op['kind'])
+            if op['op'] in ('init', 'full'):
+                chk.count('hist:reinit=' + op.get('rel', 'fixed'))
+            if op['op'] == 'get':
+                chk.count('hist:get:' + ('print' if op.get('pr') else 'defaults' if op.get('defaults') else 'explicit-lmin-lmax'))
+                chk.count('hist:get:mutate-result=' + str(op.get('mut')))
+                I = sorted(ob[2] + ob[3])
+                if ob[0] == 'ok' and I:
+                    if op['o'] in last_get and len(last_get[op['o']]) == len(I) and last_get[op['o']] != I:
+                        chk.count('hist:consecutive scheme requests see index sets of equal size and other content')
+                        nontrivial = True
+                    last_get[op['o']] = I
+            if ob[0] == 'exc':
+                chk.count('hist:raises=' + ob[1][1] + '@' + op['op'])
+        # 1. the property's own predicates on the implementation alone
+        bad = oracle_history(c['dims'], ops, obs, r['ctrl'], r['argp'], deep=max(c['dims']) <= 4)
+        # 2. correspondence with the model, object by object
+        diff = None
+        for o, d in enumerate(c['dims']):
+            mr = mstep.get((i, o))
+            mine = [(j, op, ob) for j, (op, ob) in enumerate(zip(ops, obs)) if op['o'] == o]
+            if sx.is_err(mr) or isinstance(mr, tuple) or len(mr) != len(mine):
+                diff = (mine[0][0] if mine else 0, 'model-rejects', str(mr)[:300], ''); break
+            for (j, op, ob), m in zip(mine, mr):
+                ms = dec_model_step(m)
+                is_ = [ob[1] if ob[0] == 'ok' else ['exc']] + ob[2:]
+                if ms != is_:
+                    names = ['result of ' + op['op'], 'active set', 'old set', 'lmax_adaptive']
+                    diff = (j, ','.join(names[q] for q in range(4) if ms[q] != is_[q]), str(ms)[:700], str(is_)[:700]); break
+            if diff:
+                break
+        if bad:
+            step, kind, msg = bad
+            small = ops[:step + 1]
+            shrunk[kind] = shrunk.get(kind, 0) + 1
+            try:
+                if shrunk[kind] <= 3:
+                    small = shrink_history(c, ops, step, lambda rr: (lambda b: b is not None and b[1] == kind)(
+                    oracle_history(c['dims'], rr['ops'], rr['obs'], rr['ctrl'], rr['argp'])))
+            except Exception:
+                pass
+            chk.violation('oracle:object_history', kind, {'request': small[-1]['op']}, dict(c, ops=small, nops=len(small)),
+                          dict(step=step, why=msg, model_differs_at=diff and diff[0]))
+        elif diff:
+            chk.violation('corr:C01/object-history', 'object-history-differs', {'observable': diff[1].split(' of ')[0]},
+                          dict(c, ops=ops[:diff[0] + 1]), dict(step=diff[0], differs=diff[1], model=diff[2], impl=diff[3],
+                                                              property_predicate=None), failing_input=False)
+        inits = sum(1 for op, ob in zip(ops, obs) if op['op'] in ('init', 'full') and ob[0] == 'ok')
+        if inits >= 2 or nontrivial:
+            keys.append(('hist', str(c['dims']), json_key(ops)))
+        if len(samples) < 2 and nontrivial:
+            samples.append(dict(dims=c['dims'], ops=ops[:12]))
+    chk.record_cases(len(cases), keys,
+                     'histories of 4..26 public requests on one object / two objects in one process (d 1..6): (re-)initialisation '
+                     'with equal, other and size-colliding parameters, init_full_grid, update requests (list/tuple/ndarray, '
+                     'arbitrary vectors), scheme requests (defaults / other lmin,lmax / do_print), queries, caller-side mutation of '
+                     'returned lists/grids/sets; non-trivial = at least two successful initialisations of one object or two '
+                     'consecutive scheme requests on index sets of equal size and other content', samples)
+
+
+def json_key(ops):
+    import json
+    return json.dumps([enc_op(op) for op in ops])
 
 
 def run(chk):
@@ -257,6 +759,7 @@ def run(chk):
         if len(samples) < 3 and refin >= 2:
             samples.append(dict(dim=c['dim'], lmin=c['lmin'], lmax=c['lmax'], ops=r['ops'],
                                 final_scheme=str(r['states'][-1][4])))
+    run_object_histories(chk)
     if gen_problem and not any(v['failing_input'] for v in chk.violations):
         # broken proof obligation of the source-derived model; the correspondence and the oracle above found no input on
         # which the implementation violates the property
@@ -270,6 +773,18 @@ def run(chk):
 
 def replay(chk, rep):
     c = rep['case']
+    if 'dims' in c:
+        st, r = run_impl(impl_hist, [c])[0]
+        print('impl:', st)
+        if st != 'ok':
+            print(r); return 1
+        for op, ob, cb in zip(r['ops'], r['obs'], r['ctrl']):
+            print(' ', op, '->', ob[:2], 'active', ob[2], 'old', ob[3], '' if cb == ob else '   [control object: %s]' % (cb,))
+        for o, d in enumerate(c['dims']):
+            print('model, object %d:' % o, run_model(1, [(2, [d, [enc_op(op) for op in r['ops'] if op['o'] == o]])])[0])
+        bad = oracle_history(c['dims'], r['ops'], r['obs'], r['ctrl'], r['argp'])
+        print('property predicates:', 'hold' if bad is None else 'VIOLATED at request %d (%s): %s' % bad)
+        return 1 if bad else 0
     st, r = run_impl(impl_run, [c])[0]
     print('impl:', st, r)
     mr = run_model(1, [(0, [c['dim'], c['lmax'], c['lmin'], r['ops'] if st == 'ok' else c.get('ops') or []])])[0]
